@@ -124,6 +124,18 @@ pub trait Subs {
 	fn sync_sub(&self, items: Vec<u64>);
 }
 
+/// the registration branches of a subscription the traits above leave out: sync + extensions, async + extensions and plain sync,
+/// each with a notification-name override (so that subscribe name, notification name and unsubscribe name all differ)
+#[rpc(client, server, namespace = "sx")]
+pub trait SubsX {
+	#[subscription(name = "se" => "seItem", unsubscribe = "seStop", item = u64, with_extensions)]
+	fn sync_ext(&self, items: Vec<u64>);
+	#[subscription(name = "ae" => "aeItem", unsubscribe = "aeStop", item = u64, with_extensions)]
+	async fn async_ext(&self, items: Vec<u64>) -> SubscriptionResult;
+	#[subscription(name = "sp" => "spItem", unsubscribe = "spStop", item = u64)]
+	fn sync_plain(&self, items: Vec<u64>);
+}
+
 /// Options in non-trailing positions, unit return, generic traits
 #[rpc(client, server, namespace = "e")]
 pub trait Extra {
@@ -292,6 +304,38 @@ impl SubsServer for Srv {
 	}
 }
 
+fn feed(pending: PendingSubscriptionSink, items: Vec<u64>) {
+	tokio::spawn(async move {
+		if let Ok(sink) = pending.accept().await {
+			for i in items {
+				let _ = sink.send(serde_json::value::to_raw_value(&i).unwrap()).await;
+			}
+			sink.closed().await;
+		}
+	});
+}
+
+#[async_trait]
+impl SubsXServer for Srv {
+	fn sync_ext(&self, pending: PendingSubscriptionSink, _ext: &jsonrpsee::Extensions, items: Vec<u64>) {
+		let _ = self.rec("sync_ext", (items.clone(),));
+		feed(pending, items);
+	}
+	async fn async_ext(&self, pending: PendingSubscriptionSink, _ext: &jsonrpsee::Extensions, items: Vec<u64>) -> SubscriptionResult {
+		let _ = self.rec("async_ext", (items.clone(),));
+		let sink = pending.accept().await?;
+		for i in items {
+			sink.send(serde_json::value::to_raw_value(&i).unwrap()).await?;
+		}
+		sink.closed().await;
+		Ok(())
+	}
+	fn sync_plain(&self, pending: PendingSubscriptionSink, items: Vec<u64>) {
+		let _ = self.rec("sync_plain", (items.clone(),));
+		feed(pending, items);
+	}
+}
+
 pub fn build_methods(srv: Srv) -> Methods {
 	let mut m = Methods::new();
 	m.merge(PlainServer::into_rpc(srv.clone())).unwrap();
@@ -299,6 +343,7 @@ pub fn build_methods(srv: Srv) -> Methods {
 	m.merge(DottedServer::into_rpc(srv.clone())).unwrap();
 	m.merge(ExtraServer::into_rpc(srv.clone())).unwrap();
 	m.merge(GenServer::<Shape, Tagged>::into_rpc(srv.clone())).unwrap();
+	m.merge(SubsXServer::into_rpc(srv.clone())).unwrap();
 	m.merge(SubsServer::into_rpc(srv)).unwrap();
 	m
 }
@@ -431,6 +476,8 @@ pub enum Call17 {
 	Sub(Vec<Point>, Option<String>),
 	Shapes(Vec<Shape>, u64),
 	SyncSub(Vec<u64>),
+	/// one of the `SubsX` subscriptions: 0 sync + extensions, 1 async + extensions, 2 plain sync
+	SubX(u8, Vec<u64>),
 	Mid(Option<u8>, String, Option<bool>),
 	Unit(Vec<String>),
 	MidMap(Option<Point>, u64),
@@ -477,6 +524,7 @@ fn arb_call() -> BoxedStrategy<Call17> {
 		2 => (proptest::collection::vec(arb_point(), 0..4), proptest::option::of(arb_s())).prop_map(|(a, b)| Call17::Sub(a, b)),
 		2 => (proptest::collection::vec(arb_shape(), 0..4), arb_u64()).prop_map(|(a, b)| Call17::Shapes(a, b)),
 		1 => proptest::collection::vec(arb_u64(), 0..4).prop_map(Call17::SyncSub),
+		2 => (0u8..3, proptest::collection::vec(arb_u64(), 0..4)).prop_map(|(w, i)| Call17::SubX(w, i)),
 		3 => (proptest::option::of(any::<u8>()), arb_s(), proptest::option::of(any::<bool>())).prop_map(|(a, b, c)| Call17::Mid(a, b, c)),
 		1 => proptest::collection::vec(arb_s(), 0..3).prop_map(Call17::Unit),
 		2 => (proptest::option::of(arb_point()), arb_u64()).prop_map(|(a, b)| Call17::MidMap(a, b)),
@@ -836,6 +884,45 @@ impl SubCheck for Stubs {
 						obs.fail("c17/wrong-notification-method-name", format!("{e}; {}", desc()));
 					}
 				}
+				Call17::SubX(which, items) => {
+					*lb.state.fail.lock() = None;
+					let (rust, short) = [("sync_ext", "se"), ("async_ext", "ae"), ("sync_plain", "sp")][*which as usize % 3];
+					let r = match which % 3 {
+						0 => SubsXClient::sync_ext(c, items.clone()).await,
+						1 => SubsXClient::async_ext(c, items.clone()).await,
+						_ => SubsXClient::sync_plain(c, items.clone()).await,
+					};
+					match r {
+						Err(e) => obs.fail("c17/subscribe-failed", format!("{e:?}; {}", desc())),
+						Ok(mut s) => {
+							match read_items(&mut s, items.len()).await {
+								Ok(got) => {
+									let want: Vec<Value> = items.iter().map(to_v).collect();
+									obs.check(got == want, "c17/subscription-items-differ", || format!("{got:?} vs {want:?}; {}", desc()));
+								}
+								Err(e) => obs.fail("c17/subscription-items-missing", format!("{e}; {}", desc())),
+							}
+							let _ = s.unsubscribe().await;
+							crate::fix::server::settle().await;
+							if let Err(e) = lb.unsubscribe_acknowledged() {
+								obs.fail("c17/unsubscribe-not-acknowledged", format!("{e}; {}", desc()));
+							}
+						}
+					}
+					let calls = lb.state.calls.lock();
+					let ok = calls.len() == 1 && calls[0].0 == rust && calls[0].1.downcast_ref::<(Vec<u64>,)>() == Some(&(items.clone(),));
+					obs.check(ok, "c17/arguments-differ", || format!("subscription handler saw {:?}; {}", calls.iter().map(|c| c.0).collect::<Vec<_>>(), desc()));
+					drop(calls);
+					let w = lb.wire.lock();
+					let first: Value = w.first().and_then(|s| serde_json::from_str(s).ok()).unwrap_or(Value::Null);
+					obs.check(first["method"] == json!(format!("sx_{short}")), "c17/wrong-method-name-on-wire", || format!("{first}"));
+					let last: Value = w.last().and_then(|s| serde_json::from_str(s).ok()).unwrap_or(Value::Null);
+					obs.check(last["method"] == json!(format!("sx_{short}Stop")), "c17/wrong-unsubscribe-name-on-wire", || format!("{last}"));
+					drop(w);
+					if let Err(e) = lb.notification_method_is(&format!("sx_{short}Item")) {
+						obs.fail("c17/wrong-notification-method-name", format!("{e}; {}", desc()));
+					}
+				}
 				Call17::Mid(a, b, cc) => {
 					opt_variation = a.is_none() || cc.is_none();
 					let (c2, got) = match via {
@@ -984,8 +1071,8 @@ fn to_camel(s: &str) -> String {
 }
 
 pub fn check(ctx: &mut Ctx) {
-	ctx.rule = "programs: a fixed family of 6 #[rpc(client, server)] traits / 22 methods compiled into the harness (0..4 params, trailing and non-trailing Options, unit return, a generic trait with a generic subscription item, param_kind array/map, #[argument(rename)], namespace with default and custom separator, aliases, sync/async/blocking, with_extensions, \
-		subscriptions with params / item types / notification-name override / unsubscribe aliases / by-name params / sync handler); inputs: generated argument values (integers at type boundaries, Unicode strings, nested structs, externally and internally tagged enums, Vec, BTreeMap, Option, tuples) and generated server results/errors. \
+	ctx.rule = "programs: a fixed family of 7 #[rpc(client, server)] traits / 25 methods compiled into the harness (0..4 params, trailing and non-trailing Options, unit return, a generic trait with a generic subscription item, param_kind array/map, #[argument(rename)], namespace with default and custom separator, aliases, sync/async/blocking, with_extensions, \
+		subscriptions with params / item types / notification-name override / unsubscribe aliases / by-name params / sync handler; all four registration branches of a subscription - sync or async, with or without extensions - with an override); inputs: generated argument values (integers at type boundaries, Unicode strings, nested structs, externally and internally tagged enums, Vec, BTreeMap, Option, tuples) and generated server results/errors. \
 		Each call goes stub -> real async client -> wire text -> Methods::raw_json_request -> server trait impl (which records its arguments). Also hand-built requests the stubs never emit: aliases, by-name requests with declared / snake_case / camelCase keys, trailing optionals omitted in arrays and objects. \
 		Oracle: the server method of that name ran once with arguments equal (PartialEq) to the stub's, the wire method name is the declared one, the client gets exactly the returned value / error object, subscription items arrive in order. Non-trivial = a non-scalar argument or an optional-tail variation; distinct by case value."
 		.into();
